@@ -46,3 +46,40 @@ entry("C08", modules=["contracts.c08_mps"],
                   "shift_orthogonality_center (strongest frame form), calc_current_orthog_center, parse_cur_orthog, "
                   "canonicalize: Sound(info', result) and min(where) <= a <= b <= max(where), receiver untouched when "
                   "not in place, nothing outside the span of old record and target touched.")
+
+
+_TC = "quimb/tensor/tensor_core.py"
+entry("C01", modules=["contracts.c01_den"],
+      E1=[f"{_TC}::tensor_contract", f"{_TC}::maybe_unwrap", f"{_TC}::TensorNetwork.contract_tags",
+          f"{_TC}::TensorNetwork.contract", f"{_TC}::TensorNetwork.contract_cumulative", f"{_TC}::TensorNetwork.item",
+          f"{_TC}::TNLinearOperator.__init__", f"{_TC}::TensorNetwork.aslinearoperator", f"{_TC}::TensorNetwork.trace"],
+      TRUSTED=["leaf: array_contract / cotengra computes the sum-of-products of the arrays it is given over the labels "
+               "not in the output; with strip_exponent it returns (mantissa, e) with mantissa*10**e equal to that value",
+               "leaf: partition_tensors returns (rest, matched) whose joint contraction is the original network and the "
+               "rest keeps the stored exponent (C02); reindex / transpose_ relabel without changing values (C03)",
+               "leaf: the action of TNLinearOperator is the contraction of the tensors stored in _tensors",
+               "norm is homogeneous: norm(10^e d) = 10^e norm(d); tensors are non-zero and finite (log10 defined)"],
+      ASSUMPTIONS=["den domain: a value is 10^e*d with d in an uninterpreted sort, contraction = uninterpreted join with "
+                   "unit; exponent bookkeeping is then linear real arithmetic + EUF. Which labels are summed (label "
+                   "calculus / output_inds inference) is NOT part of this domain: carried by opaque values",
+                   "kinds enumerated: tags in {all, ..., some}; strip_exponent, inplace, preserve_tensor in {True, False}; "
+                   "equalize_norms in {'auto', True, False}; exponent None | real; get=None; max_bond=None (exact route); "
+                   "generic (non structured) network class; non-empty network"],
+      BOUNDED_FOR={"TensorNetwork.contract_tags": ["contract_tags", "contract(tags"], "TensorNetwork.item": ["item"],
+                   "TNLinearOperator.__init__": ["TNLinearOperator", "linear operator"]},
+      EXPLANATION="E1 (den domain): for every return path of tensor_contract, maybe_unwrap, TensorNetwork.contract, "
+                  "contract_tags, contract_cumulative (loop invariant), item, trace, aslinearoperator and the "
+                  "TNLinearOperator constructor: den(result) == den(old(self)) incl. the stored exponent, in every "
+                  "return form (network | tensor | scalar | (mantissa, exponent)), and the receiver is unchanged when "
+                  "not in place.")
+entry("C04", modules=["contracts.c01_den"],
+      E1=[f"{_TC}::TensorNetwork.strip_exponent", f"{_TC}::TensorNetwork.distribute_exponent",
+          f"{_TC}::TensorNetwork.equalize_norms", f"{_TC}::maybe_unwrap"],
+      TRUSTED=["leaf: multiply_each(x) multiplies each of the n tensors by x (positive scalar: log prefactor += n*log10 x)",
+               "norm is homogeneous; tensors non-zero and finite"],
+      ASSUMPTIONS=["den domain as in C01; equalize_norms / distribute_exponent on a network with at least one tensor "
+                   "(on an empty network distribute_exponent divides by zero: outside the domain)",
+                   "value kinds: None | True | positive real"],
+      EXPLANATION="E1 (den domain): strip_exponent, distribute_exponent, equalize_norms (loop invariant) and the "
+                  "redistribution inside maybe_unwrap preserve the denoted value exactly and leave the promised form "
+                  "(tensor norm == value, exponent == new_exponent / 0 after redistribution).")
